@@ -140,7 +140,9 @@ def suls(draw, min_max_len=20):
     max_len = max(max_len, min_max_len)
     ident = draw(st.one_of(
         st.sampled_from([b'Default Storage Set', b'CUSTOMER', b'']).map(lambda s: s.ljust(60)),
-        st.lists(st.sampled_from(list(PRINTABLE)), min_size=60, max_size=60).map(bytes)))
+        st.lists(st.sampled_from(list(PRINTABLE)), min_size=60, max_size=60).map(bytes),
+        # ... with the white space characters that are ASCII text too (tab, line feed, carriage return, VT, FF)
+        st.lists(st.sampled_from(list(PRINTABLE) + [9, 10, 13, 11, 12] * 4), min_size=60, max_size=60).map(bytes)))
     version = b'V1.' + ('%02d' % draw(st.one_of(st.just(0), st.integers(0, 99)))).encode()
     return {'seq': seq, 'seq_pad': draw(st.sampled_from([' ', ' ', '0', '0 ', ' 0'])), 'version': version, 'max_len': max_len,
             'max_pad': draw(st.sampled_from([' ', '0', '0', '0 ', ' 0'])), 'ident': ident}
